@@ -340,6 +340,9 @@ def evalCase (spec : Bool) (ws : List String) : String :=
       | _ => "bad-op"
     | _, _, _ => "bad-op"
   | (kind :: ws) :: tree :: rest =>
+    -- "Un"/"Rn": the same with misc.invalid_url_throws = false (the default configuration of cppcms)
+    let nt := kind == "Un" || kind == "Rn"
+    let kind := if kind == "Un" then "U" else if kind == "Rn" then "R" else kind
     if kind != "U" && kind != "R" then "bad-op"
     else
       let (meth, ws) := if kind == "R" then (ws.head?.bind parseHex, ws.drop 1) else (some [], ws)
@@ -361,7 +364,7 @@ def evalCase (spec : Bool) (ws : List String) : String :=
                   | none => "bad-op"
                   | some p =>
                     let ctx : MCtx := { root := root, helpers := helpers.reverse }
-                    let m := mapUrl ctx p key params
+                    let m : Except MapErr Bytes := if nt then .ok (mapUrlNT ctx p key params) else mapUrl ctx p key params
                     if kind == "U" then mapStr m
                     else match m with
                       | .error _ => mapStr m
@@ -399,7 +402,8 @@ answers), the implementation must have produced `root ++ u` and made the handler
 Answers `1 c` (consistent, implementation agrees), `1 n` (not consistent: nothing claimed), `0 c` (violation). -/
 def judgeR (expected : List Event) (ws : List String) (impl : String) : String :=
   match sections ws with
-  | ("R" :: meth :: root :: nh :: ws) :: tree :: rest =>
+  | (rkind :: meth :: root :: nh :: ws) :: tree :: rest =>
+    if rkind != "R" && rkind != "Rn" then "bad-op" else
     match parseHex meth, parseHex root, nh.toNat? with
     | some meth, some root, some nh =>
       match parseKV nh ws with
@@ -426,8 +430,11 @@ def judgeR (expected : List Event) (ws : List String) (impl : String) : String :
                     if Consistent rx (some meth) ctx ov p' cur anc rk pos' expected then
                       match mapUrl ctx p key params with
                       | .ok full =>
-                        let expect := "ok:" ++ toHex full ++ " " ++ evsStr expected
-                        if impl == expect then "1 c" else "0 c"
+                        -- in the default configuration the URL goes through `c_str()`: claim only for NUL-free URLs
+                        if rkind == "Rn" && full.contains 0 then "1 n"
+                        else
+                          let expect := "ok:" ++ toHex full ++ " " ++ evsStr expected
+                          if impl == expect then "1 c" else "0 c"
                       | .error _ => "0 c"
                     else "1 n"
                   | _ => "1 n"
